@@ -27,6 +27,7 @@ LEVEL_TEXT = ("Fault enumeration on the real code: for generated programs every 
               "C07).")
 LEVEL_TEXT += (" Also proved: how the result of a function without an element-wise MapSpec reaches the store - _single_dump_single_output (the entry of the output name holds the output afterwards, nothing else changes; KeyError / AssertionError exactly for a missing name or a storage array) and _dump_single_output (outputs found in the store are handed on unchanged; otherwise every output name gets the value picked for it, in order, and its entry holds it; _utils.dump is an assumed contract on the store view - its atomicity is the kill enumeration's business).")
 LEVEL_TEXT += (" Also proved: equal_dicts (how map(cleanup=False) compares the new inputs / defaults with the recorded ones: other key sets or a comparable pair that differs -> False, else None if some pair could not be compared, else True), relative to _is_equal as an assumed partial relation and the assumed fact that dicts with equal key sets have equal len.")
+LEVEL_TEXT += (" Also proved: _compare_to_previous_run_info (map(cleanup=False) is refused exactly when the folder holds a run description that cannot be read, or that differs in internal shapes, MapSpecs or shapes, or whose inputs / defaults are decidedly different; an undecided comparison continues), relative to assumed pure contracts of its callees.")
 LEVEL_NOTE = ("Bounds: programs with <=8 user calls, storages file_array / dict / shared_memory_dict, sequential (and a "
               "thread pool for the raise faults). Not covered (N/A for this family): crashes inside mkdir/rmtree, "
               "durability without fsync, killing individual pool workers.")
@@ -34,6 +35,7 @@ TECHNIQUE = ("fault enumeration of the resume contract on the real code (raise p
              "resume decision _existing_and_missing_indices discharged by z3")
 TECHNIQUE += ('; the store writes _single_dump_single_output / _dump_single_output discharged by z3')
 TECHNIQUE += ('; equal_dicts discharged by z3')
+TECHNIQUE += ('; _compare_to_previous_run_info discharged by z3')
 EXPLANATION = LEVEL_TEXT
 RULE = ("program x storage x fault; faults: raise at call k (all k), raise at k1 then k2, kill before the n-th "
         "open-for-write (all n), torn n-th write (all n); distinct = distinct (program, storage, fault); non-trivial = "
@@ -64,7 +66,11 @@ def proof_items():
                       registry=lambda: {**{c.short: c for c in store.LOAD}, **{c.name: c for c in store.LOAD}}),
             # "re-running with the same inputs": how the new inputs / defaults are compared with the recorded ones
             ProofItem(small.equal_dicts, gen=small.ed_gen, call=small.ed_call,
-                      registry=lambda: {**{c.short: c for c in small.EQUAL_DICTS}, **{c.name: c for c in small.EQUAL_DICTS}})]
+                      registry=lambda: {**{c.short: c for c in small.EQUAL_DICTS}, **{c.name: c for c in small.EQUAL_DICTS}}),
+            # ... and when the request is refused: exactly for an unreadable or different recorded run
+            ProofItem(small.compare_to_previous, gen=small.cmp_gen, call=small.cmp_call,
+                      registry=lambda: {**{c.short: c for c in small.COMPARE_PREVIOUS},
+                                        **{c.name: c for c in small.COMPARE_PREVIOUS}})]
 
 
 def _run_child(job):
